@@ -10,12 +10,12 @@ import (
 	"sync"
 	"sync/atomic"
 
+	"github.com/anacrolix/dht/v2/int160"
 	k_nearest_nodes "github.com/anacrolix/dht/v2/k-nearest-nodes"
 	"github.com/anacrolix/dht/v2/krpc"
 	"github.com/anacrolix/dht/v2/traversal"
 	"github.com/anacrolix/dht/v2/types"
 	"github.com/anacrolix/generics"
-	"github.com/anacrolix/dht/v2/int160"
 
 	"dsim/core"
 )
@@ -31,16 +31,16 @@ func init() {
 }
 
 type tnode struct {
-	idx     int
-	listID  [20]byte // id others list it under
-	respID  [20]byte // id it answers with
-	addr    krpc.NodeAddr
-	astr    string
-	beh     int // 0 honest-global 1 honest-local 2 liar 3 silent 4 silent-with-nodes
-	tok     int // 0 string 1 absent 2 non-string
-	view    []int
-	lies    []krpc.NodeInfo
-	lies6   []krpc.NodeInfo
+	idx    int
+	listID [20]byte // id others list it under
+	respID [20]byte // id it answers with
+	addr   krpc.NodeAddr
+	astr   string
+	beh    int // 0 honest-global 1 honest-local 2 liar 3 silent 4 silent-with-nodes
+	tok    int // 0 string 1 absent 2 non-string
+	view   []int
+	lies   []krpc.NodeInfo
+	lies6  []krpc.NodeInfo
 }
 
 type tpending struct {
@@ -59,36 +59,38 @@ type tresp struct {
 }
 
 type travWorld struct {
-	r       *Run
-	focus   string
-	target  [20]byte
-	nodes   []*tnode
-	byAddr  map[string]*tnode
-	K, A    int
-	effK    int
-	effA    int
-	nf      func(types.AddrMaybeId) bool
-	df      func(any) bool
-	nfKind  int
-	dfKind  int
-	mu      sync.Mutex
-	pending []*tpending
-	inDo    int
-	maxInDo int
-	queried map[string]int
-	nCalls  int
-	seq     int
-	learned map[string]learnedC // addr -> contact info (best known id)
-	offered map[string][]types.AddrMaybeId // forms handed to the traversal (before it processed them)
-	apiLearned map[string]bool             // addresses handed over through AddNodes (seed or late), after it returned
-	viaWatcher bool                        // the stall now being judged was received by a consumer blocked on Stalled()
-	resps   []tresp
-	op      *traversal.Operation
-	stopCalled bool
-	stopDone   bool // Stop() call returned
+	r             *Run
+	focus         string
+	target        [20]byte
+	nodes         []*tnode
+	byAddr        map[string]*tnode
+	K, A          int
+	effK          int
+	effA          int
+	nf            func(types.AddrMaybeId) bool
+	df            func(any) bool
+	nfKind        int
+	dfKind        int
+	mu            sync.Mutex
+	pending       []*tpending
+	inDo          int
+	maxInDo       int
+	queried       map[string]int
+	nCalls        int
+	seq           int
+	learned       map[string]learnedC            // addr -> contact info (best known id)
+	offered       map[string][]types.AddrMaybeId // forms handed to the traversal (before it processed them)
+	apiLearned    map[string]bool                // addresses handed over through AddNodes (seed or late), after it returned
+	viaWatcher    bool                           // the stall now being judged was received by a consumer blocked on Stalled()
+	staleSuspect  string                         // address of a contact that was unqueried when a blocked consumer got the stall signal
+	staleDesc     string
+	resps         []tresp
+	op            *traversal.Operation
+	stopCalled    bool
+	stopDone      bool // Stop() call returned
 	pendingAtStop []*tpending
-	apiBusy    int
-	allHonest  bool
+	apiBusy       int
+	allHonest     bool
 }
 
 type learnedC struct {
@@ -259,7 +261,7 @@ func trav(r *Run, focus string) {
 		N = ch.Range(20, 80, "n")
 	}
 	tw.K = ch.Pick([]int{1, 1, 1, 1, 1, 1, 1, 1, 3, 1, 1, 1, 1, 1, 1, 1, 2, 1, 1, 1, 1}, "K") // 0..20, 8 more likely, 0 = default
-	tw.A = ch.Pick([]int{1, 2, 2, 4, 2, 1, 1, 1, 1}, "alpha")                               // 0..8
+	tw.A = ch.Pick([]int{1, 2, 2, 4, 2, 1, 1, 1, 1}, "alpha")                                 // 0..8
 	tw.effK, tw.effA = tw.K, tw.A
 	if tw.effK == 0 {
 		tw.effK = 8
@@ -414,6 +416,19 @@ func trav(r *Run, focus string) {
 
 	mkBatch := func(label string) []types.AddrMaybeId {
 		var b []types.AddrMaybeId
+		if label == "late" && ch.Chance(1, 2, "late.fresh") {
+			// a contact nobody in the graph knows, close to the target: it must be queried
+			n := &tnode{idx: len(tw.nodes), addr: mkAddr(), beh: 1, tok: 0}
+			n.astr = addrKey(n.addr)
+			n.listID = IDWithPrefix(r.Rng, tw.target, 8+r.Rng.Intn(120))
+			n.respID = n.listID
+			tw.nodes = append(tw.nodes, n)
+			tw.byAddr[n.astr] = n
+			N = len(tw.nodes)
+			b = append(b, types.AddrMaybeId{Addr: n.addr.ToNodeAddrPort(), Id: generics.Some(int160.FromByteArray(n.listID))})
+			r.Probe("late-add-fresh-close-node")
+			tw.allHonest = false
+		}
 		if N == 0 {
 			if ch.Chance(1, 2, label+".bogus") {
 				b = append(b, types.AddrMaybeId{Addr: mkAddr().ToNodeAddrPort()})
@@ -526,7 +541,9 @@ func trav(r *Run, focus string) {
 				}
 				watchHit.Store(true)
 				r.Wake()
-				<-watchAck
+				if _, open := <-watchAck; !open {
+					return nil // the scenario is over
+				}
 			}
 		})
 	}
@@ -636,6 +653,15 @@ func trav(r *Run, focus string) {
 				// before an AddNodes call that has since returned (known finding, DESIGN §12.3):
 				// that history gets its own class so that every other cause is still reported.
 				stale := tw.viaWatcher && tw.apiLearned[k]
+				if stale {
+					// Either the known stale offer (the run loop has been woken by the addition
+					// and will query the contact next) or a real failure to ever query it: decided
+					// at the next quiescent point.
+					if tw.staleSuspect == "" {
+						tw.staleSuspect, tw.staleDesc = k, a.String()
+					}
+					return
+				}
 				if !full {
 					if stale {
 						r.Violate("stale-stall-offer-after-addnodes", "a consumer blocked on Stalled() received the signal although contact %s, handed over by an AddNodes call that had returned, was never queried (result set %d<%d)", a, len(els), tw.effK)
@@ -757,6 +783,39 @@ func trav(r *Run, focus string) {
 		r.Probe("honest-clause-checked")
 	}
 
+	resolveStale := func() {
+		k := tw.staleSuspect
+		tw.staleSuspect = ""
+		tw.mu.Lock()
+		q := tw.queried[k]
+		tw.mu.Unlock()
+		if q > 0 {
+			r.Violate("stale-stall-offer-after-addnodes", "a consumer blocked on Stalled() received the signal although contact %s, handed over by an AddNodes call that had returned, had not been queried yet (the run loop queried it afterwards)", tw.staleDesc)
+			return
+		}
+		// still not queried although everything is quiescent: is it excusable now?
+		els := closest()
+		if len(els) >= tw.effK {
+			var far [20]byte
+			for i, e := range els {
+				if d := dist(e.ID, tw.target); i == 0 || cmpBytes(d, far) > 0 {
+					far = d
+				}
+			}
+			excus := true
+			tw.mu.Lock()
+			for _, a := range tw.learned[k].ami {
+				if nfOK(a) && a.Id.Ok && cmpBytes(dist(a.Id.Value.AsByteArray(), tw.target), far) < 0 {
+					excus = false
+				}
+			}
+			tw.mu.Unlock()
+			if excus {
+				return
+			}
+		}
+		r.Violate("stalled-with-unqueried-candidate", "contact %s was handed over by an AddNodes call that returned, the lookup reported stalled to a blocked consumer, and at the next quiescent point it still has not been queried", tw.staleDesc)
+	}
 	ctxChecked := false
 	checkCtx := func() {
 		if focus != "C04" || ctxChecked || !tw.stopCalled {
@@ -771,14 +830,7 @@ func trav(r *Run, focus string) {
 		// let everything that Stop woke run (nothing completes a DoQuery here)
 		r.Settle()
 		ctxChecked = true
-		still := map[*tpending]bool{}
-		for _, q := range tw.sortedPending() {
-			still[q] = true
-		}
-		for _, p := range tw.pendingAtStop {
-			if !still[p] {
-				continue
-			}
+		for _, p := range tw.sortedPending() {
 			if p.ctx.Err() == nil {
 				r.Violate("ctx-not-cancelled-on-stop", "query to %s was in flight when Stop was called (and Stop has returned); at the next quiescent point its context is still not done", p.astr)
 				return
@@ -827,6 +879,12 @@ func trav(r *Run, focus string) {
 		np, busy := len(tw.pending), tw.apiBusy
 		tw.mu.Unlock()
 		quiescent := np == 0 && busy == 0 && r.Sched.NumParked() == 0
+		if quiescent && tw.staleSuspect != "" && !tw.stopCalled {
+			resolveStale()
+			if r.Failed() {
+				break
+			}
+		}
 		{
 			// try to observe the stall (in event mode only at rest: receiving wakes the run
 			// loop, and polling it at every step would keep it busy for ever)
@@ -892,6 +950,12 @@ func trav(r *Run, focus string) {
 		if len(tw.sortedPending()) > 0 {
 			r.Budget = true
 			return
+		}
+		if tw.staleSuspect != "" {
+			resolveStale()
+			if r.Failed() {
+				return
+			}
 		}
 		if stalledNow() {
 			stalledSeen++
